@@ -21,6 +21,7 @@ func init() {
 			"D2 a positive example (map loop writing to a builder) must be flagged on every run, " +
 			"D3 sibling agreement of key orders: where pointer keys collected from a map are sorted by a comparator, no site orders a key type by a strict subset of the fields another site uses for the same type. " +
 			"D4 a comparator of keys taken from a map that compares a location's line also compares its file and column (sort.Slice closures and Less methods, accessors looked through). " +
+			"D5 a sort.Slice comparator that indexes a slice with its parameters indexes the slice being sorted. " +
 			"NOT decided: order dependence through pointer identity, whether a comparator is a total order on the values it meets (only the sibling contradiction is), stability of topoSort.",
 		Assumptions: commonAssumptions,
 	}
@@ -426,5 +427,6 @@ func runC10(c *an.Ctx) {
 	}
 	c.Pass("D1b", "no-goroutine-clock-random-in-syntax", 0, "scanned every in-scope function of package syntax")
 	ruleD3(c, fns, cfg)
+	ruleD5(c)
 	c10PositiveExamples(c, cfg)
 }
